@@ -25,6 +25,11 @@ Occurs(t) == { P("occurs", Hole(1, 0), Replace(t, s.pos, Hole(1, s.d))) : s \in 
 \* outer hole contains the inner, unsolved, hole, which has to be carried out of the binders in between
 Nested(t) == UNION { { P("nested", Replace(t, s1.pos, Hole(1, p[1])), Replace(t, s2.pos, Hole(2, p[2]))) : p \in (0..s1.d) \X (0..s2.d) }
                      : <<s1, s2>> \in { <<x, y>> \in Subterms(t, <<>>, 0) \X Subterms(t, <<>>, 0) : x.pos # <<>> /\ IsPrefixPos(x.pos, y.pos) /\ x.pos # y.pos } }
+\* occurs check through another hole's solution: the pattern has holes h1, h2 at two disjoint positions, the instance has
+\* -h2 where the pattern has h1 and -h1 where the pattern has h2: after h1 := -h2, solving h2 := -h1 would be cyclic
+Cycle2(t) == { P("cycle2", Replace(Replace(t, s1.pos, Hole(1, s1.d)), s2.pos, Hole(2, s2.d)), Replace(Replace(t, s1.pos, NegT(Hole(2, s1.d))), s2.pos, NegT(Hole(1, s2.d))))
+              : <<s1, s2>> \in { <<x, y>> \in Subterms(t, <<>>, 0) \X Subterms(t, <<>>, 0) :
+                                  x.pos # <<>> /\ y.pos # <<>> /\ ~IsPrefixPos(x.pos, y.pos) /\ ~IsPrefixPos(y.pos, x.pos) } }
 \* unrelated terms: one subterm replaced by a different constant -- unification has to fail (or succeed, where the subterm does
 \* not matter) part-way through the binders above the position, and leave the caller's context as it was (C18)
 Mismatch(t) == UNION { { P("mismatch", Replace(t, s.pos, k), t) : k \in {TType, TInt, Lit(OfSmall(1))} \ {s.sub} } : s \in { x \in Subterms(t, <<>>, 0) : x.pos # <<>> } }
@@ -39,7 +44,7 @@ SInit == CASE Skel = 0 -> BInit
            [] Skel = 1 -> pre = <<[k |-> "lam"], [k |-> "type"]>> /\ pending = <<1>> /\ size = 2
            [] Skel = 2 -> pre = <<[k |-> "lam"], [k |-> "type"], [k |-> "lam"], [k |-> "type"]>> /\ pending = <<2>> /\ size = 4
 Reducts(t) == { P("reduct", t, StepN(t, k)) : k \in 0..3 }
-Pairs(t) == SingleOK(t) \cup Double(t) \cup Cross(t) \cup Occurs(t) \cup Nested(t) \cup Mismatch(t) \cup Reducts(t)
+Pairs(t) == SingleOK(t) \cup Double(t) \cup Cross(t) \cup Occurs(t) \cup Nested(t) \cup Cycle2(t) \cup Mismatch(t) \cup Reducts(t)
 Emit2 == (Done /\ size >= 2 /\ ~HasHole(T) /\ WellTyped(T)) => \A p \in TwoStep(T) : PrintT(<<"PAIR", ToJson(p)>>)
 Emit == (Done /\ size >= 2 /\ ~HasHole(T) /\ WellTyped(T)) => \A p \in Pairs(T) : PrintT(<<"PAIR", ToJson(p)>>)
 ====
